@@ -188,7 +188,7 @@ def straightline(rng, B, **kw):
 
 UNASSIGNED = [0x0c, 0x0f, 0x1e, 0x21, 0x2f, 0x49, 0x4f, 0x5c, 0x5e, 0xa5, 0xb0, 0xef, 0xf6, 0xfb]
 KINDS = ["valid", "valid", "valid", "pushdata", "nonjumpdest", "oob", "oob-far", "big32", "big64", "max", "computed-valid",
-         "computed-bad", "zero", "truncated-tail"]
+         "computed-bad", "zero", "truncated-tail", "last-byte"]
 
 
 def controlflow(rng, underflow_p=0.0, symbolic_p=0.0, big_stack_p=0.0):
@@ -211,8 +211,20 @@ def controlflow(rng, underflow_p=0.0, symbolic_p=0.0, big_stack_p=0.0):
             a.push_label("PD")
         elif kind == "truncated-tail":
             # a 0x5b byte inside the truncated immediate of the PUSH that ends the code
-            a.push_label("TT")
-            need_tail.append(1)
+            if need_end:
+                a.push_label("PD")
+                kind = "pushdata"
+            else:
+                a.push_label("TT")
+                need_tail.append(1)
+        elif kind == "last-byte":
+            # a JUMPDEST that is the very last byte of the code
+            if need_tail:
+                a.push_label(name)
+                kind = "valid"
+            else:
+                a.push_label("END")
+                need_end.append(1)
         elif kind == "nonjumpdest":
             a.push_expr(lambda L, n=name: L[n] + 1, 2)
         elif kind == "oob":
@@ -242,6 +254,7 @@ def controlflow(rng, underflow_p=0.0, symbolic_p=0.0, big_stack_p=0.0):
     rng_k = rng.randint(0, 40)
     rng_hi = rng.randint(1, 0xffff)
     need_tail = []
+    need_end = []
     # a push whose immediate contains JUMPDEST bytes; PD names the second byte of the immediate
     a.mark_at("PD", 2)
     a.emit(("push", 0x5b5b5b, 3), "POP")
@@ -297,9 +310,15 @@ def controlflow(rng, underflow_p=0.0, symbolic_p=0.0, big_stack_p=0.0):
                 a.emit(h)
             feats.add("halt:" + h)
     # the code may end in a PUSH whose immediate is cut short; TT names a 0x5b byte inside what is left of it
-    a.emit("STOP")
+    if need_end or rng.random() < 0.9:
+        a.emit("STOP")
+    else:
+        feats.add("runs-off-the-end")
     a.mark_at("TT", 2)
-    if need_tail or rng.random() < 0.2:
+    if need_end:
+        a.label("END")
+        feats.add("ends-in-jumpdest")
+    elif need_tail or rng.random() < 0.2:
         a.emit(bytes([rng.choice([0x62, 0x7f, 0x6f]), 0x5b, 0x5b]))
         feats.add("truncated-tail-present")
     a.labels = {}
@@ -876,7 +895,17 @@ def sinks(rng, B):
                 a.emit(rng.choice([[0, "MSTORE"], [rng.randrange(4), "SSTORE"], ["JUMP"]]))
             elif k == "sha3":
                 sym()
-                a.emit(0, "MSTORE", b(), b(), "SHA3", rng.choice(["POP", "SLOAD", [1, "SSTORE"]]))
+                a.emit(0, "MSTORE", rng.choice([0, 1, 31, 32, 33, 64, b()]), rng.choice([0, 0, 32, b()]), "SHA3")
+                # the hash of an arbitrary (possibly empty) region in the position of an array / mapping base
+                q = rng.random()
+                if q < 0.35:
+                    a.emit(rng.choice([0, 1, 5, b()]), "ADD")
+                elif q < 0.5:
+                    sym()
+                    a.emit("ADD")
+                elif q < 0.6:
+                    a.emit(0x20, "MSTORE", "CALLER", 0, "MSTORE", 0x40, 0, "SHA3")
+                a.emit(rng.choice(["POP", "SLOAD", "SLOAD", [1, "SSTORE"], [1, "SWAP1", "SSTORE"]]))
                 if a.items and rng.random() < 0.3:
                     a.emit("POP") if False else None
             elif k == "ret":
